@@ -55,7 +55,13 @@ type raceDesc struct {
 	Sink       bool   `json:"sink"`
 	Focus      string `json:"focus"` // what every goroutine calls first (cold-start contention target)
 	Micro      bool   `json:"micro"` // only the focus requests, a few rounds: many cheap cold starts
+	// Hammer: family whose encoder every goroutine calls in a tight loop with fresh random
+	// valid requests, each result read back by the reference decoder at once (windows of
+	// a few instructions between two non-atomic steps of a "thread-safe" cache)
+	Hammer string `json:"hammer,omitempty"`
 }
+
+var hammerFamilies = []string{"ean", "code128", "code39", "code93", "codabar", "2of5", "code128nocs", "qr", "datamatrix", "pdf417", "aztec"}
 
 var raceFocuses = []string{"rs-climb", "aztec-10bit", "aztec-12bit", "pdf417", "aztec-small", "datamatrix-big", "qr-big", "onedim", "rs-climb", "aztec-8bit"}
 var microFocuses = []string{"code128", "code39-93-long", "ean-2of5-codabar", "onedim", "pdf417", "aztec-small", "code128", "code39-93-long"}
@@ -65,7 +71,7 @@ var microFocuses = []string{"code128", "code39-93-long", "ean-2of5-codabar", "on
 func focusReqs(focus string, gr *rand.Rand) []Req {
 	switch focus {
 	case "aztec-10bit":
-		return []Req{{Fam: "aztec", S: randBytes(gr, 400+gr.Intn(400), highAB), I: []int64{23, 0}, Scheme: -1}, {Fam: "aztec", S: randBytes(gr, 500+gr.Intn(300), printAB), I: []int64{33, 0}, Scheme: -1},{Fam: "aztec", S: randBytes(gr, 250+gr.Intn(500), highAB), I: []int64{33, 0}, Scheme: -1}, {Fam: "aztec", S: randBytes(gr, 200, printAB), I: []int64{23, 12}, Scheme: -1}}
+		return []Req{{Fam: "aztec", S: randBytes(gr, 400+gr.Intn(400), highAB), I: []int64{23, 0}, Scheme: -1}, {Fam: "aztec", S: randBytes(gr, 500+gr.Intn(300), printAB), I: []int64{33, 0}, Scheme: -1}, {Fam: "aztec", S: randBytes(gr, 250+gr.Intn(500), highAB), I: []int64{33, 0}, Scheme: -1}, {Fam: "aztec", S: randBytes(gr, 200, printAB), I: []int64{23, 12}, Scheme: -1}}
 	case "aztec-12bit":
 		return []Req{{Fam: "aztec", S: randBytes(gr, 1100+gr.Intn(300), highAB), I: []int64{33, 0}, Scheme: -1}, {Fam: "aztec", S: []byte("A"), I: []int64{23, int64(23 + gr.Intn(10))}, Scheme: -1}}
 	case "aztec-8bit":
@@ -146,7 +152,7 @@ func untouchedReqs(d *raceDesc) []Req {
 
 type raceOut struct {
 	ID          string            `json:"id"`
-	Digests     map[string]string `json:"digests"`  // request key -> digest ("rejected" if refused)
+	Digests     map[string]string `json:"digests"`   // request key -> digest ("rejected" if refused)
 	Conflicts   []string          `json:"conflicts"` // same key, different digests inside this process
 	Panics      []string          `json:"panics"`
 	Problems    []string          `json:"problems"` // RS syndrome failures, scale mismatches, hook invariant
@@ -156,6 +162,7 @@ type raceOut struct {
 	Growths     int               `json:"growths"`
 	Contended   int               `json:"contended_growths"`
 	Leaked      int               `json:"leaked"`
+	Hammered    int               `json:"hammered"`
 	LeakSample  string            `json:"leak_sample"`
 }
 
@@ -271,6 +278,9 @@ func auxRaceWork(args []string) int {
 			excluded[f] = true
 		}
 	}
+	if d.Hammer != "" {
+		excluded[strings.TrimSuffix(d.Hammer, "nocs")] = true
+	}
 	var src1D, srcEAN barcode.Barcode
 	for _, cand := range []Req{{Fam: "code128", S: []byte("shared-source"), Scheme: -1}, {Fam: "codabar", S: []byte("A1234B"), Scheme: -1}, {Fam: "code39", S: []byte("SHARED"), I: []int64{1, 0}, Scheme: -1}} {
 		if !excluded[cand.Fam] && src1D == nil {
@@ -373,6 +383,7 @@ func auxRaceWork(args []string) int {
 	}
 	logs := make([][]rec, d.Goroutines)
 	probs := make([][]string, d.Goroutines)
+	hammered := make([]int, d.Goroutines)
 	start := make(chan struct{})
 	var wg sync.WaitGroup
 	for g := 0; g < d.Goroutines; g++ {
@@ -495,6 +506,30 @@ func auxRaceWork(args []string) int {
 					}
 				}
 			}
+			if d.Hammer != "" {
+				n := 1500
+				if d.Hammer == "qr" || d.Hammer == "datamatrix" || d.Hammer == "pdf417" || d.Hammer == "aztec" {
+					n = 150
+				}
+				for it := 0; it < n && len(probs[g]) < 5; it++ {
+					q := randomValidReq(gr, d.Hammer, -1)
+					if (d.Hammer == "code39" || d.Hammer == "code93") && len(q.S) == 0 {
+						continue
+					}
+					o := q.call()
+					hammered[g]++
+					switch {
+					case o.panic != nil:
+						probs[g] = append(probs[g], fmt.Sprintf("hammer: %s panics: %v", q, o.panic))
+					case o.err != nil || o.bc == nil:
+						probs[g] = append(probs[g], fmt.Sprintf("hammer: valid request %s refused: %v", q, o.err))
+					default:
+						if msg := verifyDecoded(q, o.bc); msg != "" {
+							probs[g] = append(probs[g], fmt.Sprintf("hammer: %s under concurrency: %s", q, msg))
+						}
+					}
+				}
+			}
 			logs[g] = my
 		}(g)
 	}
@@ -510,6 +545,8 @@ func auxRaceWork(args []string) int {
 	var ivs []iv
 	for g := range logs {
 		out.Problems = append(out.Problems, probs[g]...)
+		out.Calls += hammered[g]
+		out.Hammered += hammered[g]
 		for _, rc := range logs[g] {
 			out.Calls++
 			if rc.panic != "" {
@@ -655,6 +692,16 @@ func (p c16) Run(par *fw.Parent) *fw.Result {
 	}
 	for i := 0; i < nmicro; i++ {
 		descs = append(descs, raceDesc{ID: fmt.Sprintf("micro-%d", i), Seed: r.Int63(), Procs: []int{2, 4, 8, 16}[i%4], Goroutines: []int{4, 8, 16}[(i/4)%3], Micro: true, Focus: microFocuses[i%len(microFocuses)]})
+	}
+	// tight loops on one family with inline decoding
+	nham := 1
+	if par.Tier == "thorough" {
+		nham = 6
+	}
+	for k := 0; k < nham; k++ {
+		for i, fam := range hammerFamilies {
+			descs = append(descs, raceDesc{ID: fmt.Sprintf("hammer-%s-%d", fam, k), Seed: r.Int63(), Procs: []int{8, 16, 4, 2}[(i+k)%4], Goroutines: []int{8, 16, 4}[(i+2*k)%3], Micro: true, Focus: "hammer", Hammer: fam})
+		}
 	}
 	// free-running streams of large Aztec symbols (calls drift out of phase)
 	nbig := 2
@@ -847,6 +894,10 @@ func (p c16) Run(par *fw.Parent) *fw.Result {
 			}
 			for sk, blk := range byStack {
 				viol("race:"+raceKey(sk), fmt.Sprintf("race detector report (%d reports in process %s)", n, d.ID), fmt.Sprintf("descriptor %+v", d), blk)
+			}
+			merged.Extra["hammer_calls_decoded_inline"] += int64(o.Hammered)
+			if d.Hammer != "" {
+				cover("hammer_family", d.Hammer)
 			}
 			merged.Extra["max_in_flight_calls"] = max64(merged.Extra["max_in_flight_calls"], int64(o.MaxInFlight))
 			merged.Extra["overlapping_call_pairs"] += o.Overlap
